@@ -41,7 +41,7 @@ class Sel:
     """
 
     def __init__(self, calls=(), fields=(), conds=None, locks=True, indirect=False, rets=False,
-                 decls=(), assigns=()):
+                 decls=(), assigns=(), derefs=()):
         self.calls = calls
         self.fields = set(fields)
         self.conds = conds
@@ -50,6 +50,7 @@ class Sel:
         self.rets = rets
         self.decls = set(decls)
         self.assigns = set(assigns)   # local variables whose plain assignments are recorded like decls
+        self.derefs = set(derefs)     # pointer parameters: stores through `*p` / `p[i]` become ('dst', p, value, nid)
 
     def _want_call(self, fn):
         if callable(self.calls):
@@ -62,6 +63,18 @@ class Sel:
             return None
         if fo[1] in self.fields or ("%s::%s" % fo) in self.fields:
             return "%s::%s" % fo
+        return None
+
+    def _deref_of(self, F, lh):
+        n = F.nodes[F.strip(lh)]
+        if n.get("k") == "un" and n["op"] == "*":
+            b = F.nodes[F.strip(n["e"])]
+            if b.get("k") == "ref" and b["n"] in self.derefs:
+                return b["n"]
+        if n.get("k") == "idx":
+            b = F.nodes[F.strip(n["b"])]
+            if b.get("k") == "ref" and b["n"] in self.derefs:
+                return b["n"]
         return None
 
     def select(self, F, nid, ctx):
@@ -96,6 +109,9 @@ class Sel:
         elif k == "bin" and nd.get("asg") and self.assigns and nd["op"] == "=" and \
                 F.nodes[F.strip(nd["lh"])].get("k") == "ref" and F.nodes[F.strip(nd["lh"])]["n"] in self.assigns:
             return ("decl", F.nodes[F.strip(nd["lh"])]["n"], F.render(nd["rh"]), nid)
+        elif k == "bin" and nd.get("asg") and self.derefs and self._deref_of(F, nd["lh"]):
+            v = ctx.value(nd["rh"])
+            return ("dst", self._deref_of(F, nd["lh"]), v if v is not None else F.render(nd["rh"]), nid)
         elif k == "bin" and nd.get("asg") and self.fields:
             p = self._want_field(F, nd["lh"])
             if p:
@@ -204,6 +220,8 @@ def show(seq):
             out.append("[%s%s]" % ("" if t[2] else "!", t[1]))
         elif t[0] == "decl":
             out.append("%s := %s" % (t[1], t[2]))
+        elif t[0] == "dst":
+            out.append("*%s = %s" % (t[1], t[2]))
         elif t[0] == "ret":
             out.append("return %s" % t[1])
         else:
